@@ -64,8 +64,21 @@ def edit_events(ctx, trace, owner, cls):
 
 def is_step_loop(ctx, lp):
     so = lp.self_obj
-    if not isinstance(so, Obj) or so.cls is None or lp.elem_cls is not None:
+    if lp.elem_cls is not None:
         return None
+    if not isinstance(so, Obj) or so.cls is None:
+        # a loop in a shared module-level helper (no `self`): the object it edits is the common receiver of its edits
+        recvs = {}
+        for tr, ex in lp.alts:
+            for e in flatten(tr):
+                if isinstance(e, Mut) and e.op in ("pop", "insert", "delitem", "remove", "setitem") and isinstance(e.recv, Obj) and e.recv.cls:
+                    c0 = next((c for c in LOG_CLASSES if is_subclass(ctx, e.recv.cls, c)), None)
+                    if c0 is not None and e.attr in logs_of(c0):
+                        recvs[e.recv.name] = e.recv
+        if len(recvs) != 1:
+            return None
+        so = next(iter(recvs.values()))
+        lp.self_obj = so
     cls = next((c for c in LOG_CLASSES if is_subclass(ctx, so.cls, c)), None)
     if cls is None:
         return None
@@ -83,7 +96,7 @@ def all_loops(trace):
                 yield from all_loops(tr)
 
 
-def bound_test_on_log(cond, stepname, cls):
+def bound_test_on_log(cond, stepname, cls, owner=None, stepval=None):
     """Is this Cond a bound test `step < len(self.<log of cls>)` (in any of its spellings)?  -> truth value under
     which the step is inside the log, or None."""
     t = cond.node.test if isinstance(cond.node, ast.If) else None
@@ -107,9 +120,14 @@ def bound_test_on_log(cond, stepname, cls):
             al = Effects._aliases(cond.func, None).get(a.id)
             if al:   # (a loop variable over a table of this object's logs has one candidate per row: all must be logs)
                 return all(isinstance(x, ast.Attribute) and isinstance(x.value, ast.Name) and x.value.id == "self" and x.attr in logs_of(cls) for x in al)
+            # ... or a parameter of a shared helper that holds a log of the edited object (by value)
+            if owner is not None and any(nm == a.id and tg in {f"{owner.name}.{la}" for la in logs_of(cls)} for nm, tg in zip(cond.vnames, cond.vtags)):
+                return True
         return isinstance(a, ast.Attribute) and isinstance(a.value, ast.Name) and a.value.id == "self" and a.attr in logs_of(cls)
 
     def is_step(n):
+        if isinstance(n, ast.Name) and stepval is not None and any(nm == n.id and tg == stepval for nm, tg in zip(cond.vnames, cond.vtags)):
+            return True   # (the step handed to a helper under whatever name)
         return isinstance(n, ast.Name) and n.id == stepname
 
     inside = None
@@ -185,14 +203,18 @@ def analyse(ctx, name, removing):
                                   f"decided by the traversal count above)")
                 # guards (R18.2) are reported under their own rule by the caller
                 conds = [c for c in tr if isinstance(c, Cond)]
-                guard = [bound_test_on_log(c, stepname, cls) == c.truth for c in conds if bound_test_on_log(c, stepname, cls) is not None]
+                stepval = lp.var.tag if isinstance(lp.var, Unk) else None
+
+                def bt(c):
+                    return bound_test_on_log(c, stepname, cls, owner, stepval)
+                guard = [bt(c) == c.truth for c in conds if bt(c) is not None]
                 lp_guard_ok = bool(guard) and all(guard)
                 if evs:
                     yield ("guard", cls, lp, lp_guard_ok, evs)
                 if ex2 is not None and ex2[0] in ("break", "return"):
                     # leaving the step loop skips the remaining steps: harmless only when they are all beyond the end of the log,
                     # i.e. this step is (bound test false) and the steps come in ascending order
-                    outside = [c for c in conds if bound_test_on_log(c, stepname, cls) is not None and bound_test_on_log(c, stepname, cls) != c.truth]
+                    outside = [c for c in conds if bt(c) is not None and bt(c) != c.truth]
                     yield ("early-exit", cls, lp, bool(outside) and ok_order and not rev, ex2)
                 # time adjustment inside the project's loop
                 for e in flatten(tr):
